@@ -336,9 +336,6 @@ func (enc *FnEnc) finalizeProps() {
 		}
 		if strings.HasPrefix(o.Kind, "safety") || o.Kind == "foreign" {
 			ps := append([]string{}, fc.SafetyProps...)
-			if len(ps) == 0 {
-				ps = append(ps, fc.Props...)
-			}
 			has := false
 			for _, p := range ps {
 				if p == "C02" {
